@@ -77,10 +77,14 @@ class AWQBitsTensor(QBitsTensor):
 
         This is required to make sure only standard packing is used when serializing.
         """
-        data = self._data.unpack()
+        # Restore the grouped data layout expected by the standard QBitsTensor
+        data = group(self._data.unpack(), axis=0, group_size=self._group_size)
         n_scales = self._scale.numel()
         scale = self._scale.t().reshape((n_scales, 1))
         zeropoint = self._zeropoint.t().reshape((n_scales, 1))
+        # Zero-point were scaled and negated: recover the original integer zero-point
+        zeropoint = torch.where(scale == 0, torch.zeros_like(zeropoint), -zeropoint / scale)
+        zeropoint = torch.round(zeropoint).to(torch.int8)
         return QBitsTensor(
             self._qtype, self._axis, self._group_size, self.size(), self.stride(), data, scale, zeropoint
         )
